@@ -1,6 +1,7 @@
 SPECIFICATION Spec
 INVARIANT UntamperedAccepted
 INVARIANT RevokedRejected
+INVARIANT WrongSignerRejected
 INVARIANT TamperRejected
 INVARIANT DontCareAccepted
 INVARIANT RegionsCovered
